@@ -66,6 +66,16 @@ DUMP_STD = [('velocity', (3,), 'f', 'velocity'), ('force', (3,), 'f', 'force'), 
 EXTRAS = [('c_pe', (), 'f', None), ('flag', (), 'i', None), ('disp', (3,), 'f', None), ('pair', (2,), 'i', None),
           ('stress', (3, 3), 'f', None), ('f_ave', (2, 3), 'f', None), ('c_t', (2, 2, 2), 'f', None)]
 
+# free extras whose per-atom shape has a unit dimension.  Even indices: exactly one component but not scalar
+# ((1,), (1,1), (1,1,1): ONE table column that must still come back as (natoms,)+shape); odd indices: several
+# components with a unit dimension ((1,3) vs (3,1) vs (3,) differ only by where the unit axis sits).  All of them
+# round-trip on the unchanged code through the writer's prop_info (table and atom_dump), for natoms = 1 too.
+UNIT_EXTRAS = [('w1', (1,), 'f', None), ('r13', (1, 3), 'f', None), ('o11', (1, 1), 'f', None),
+               ('c31', (3, 1), 'f', None), ('n1', (1,), 'i', None), ('p21', (2, 1), 'i', None),
+               ('t111', (1, 1, 1), 'f', None), ('m121', (1, 2, 1), 'f', None)]
+_nunit = st.sampled_from([0, 1, 1, 2])
+_kunit = st.integers(0, len(UNIT_EXTRAS) - 1)
+
 ELEMENTS = ('Al', 'Cu', 'Fe', 'O', 'H', 'Ni', 'Si', 'U')
 
 
@@ -118,8 +128,9 @@ _idstep = st.integers(1, 7)
 
 
 @st.composite
-def systems(draw, lammps=True, want=(), n_extras=(0, 3), atom_id=False):
-    """want: list of (name, shape, dtype, quantity) the system must carry; extras drawn from EXTRAS"""
+def systems(draw, lammps=True, want=(), n_extras=(0, 3), atom_id=False, unit_extras=False):
+    """want: list of (name, shape, dtype, quantity) the system must carry; extras drawn from EXTRAS;
+    unit_extras: additionally 0-2 properties from UNIT_EXTRAS (drawn last: the other draws are unaffected)"""
     cell = draw(_CELLS_LAMMPS if lammps else _CELLS_ANY)
     n = draw(_natoms)
     rel = draw(_REL[n])
@@ -154,13 +165,24 @@ def systems(draw, lammps=True, want=(), n_extras=(0, 3), atom_id=False):
         perm = [k for k in draw(_idperm) if k < n]
         b, s = draw(_idbase), draw(_idstep)
         props.append({'name': 'atom_id', 'shape': [], 'dtype': 'i', 'q': None, 'values': [b + s * k for k in perm]})
-    return {'cell': cell, 'pbc': draw(gens.pbcs), 'rel': rel, 'atype': atype, 'ntypes': ntypes, 'symbols': symbols,
+    pbc = draw(gens.pbcs)
+    if unit_extras:
+        nu = draw(_nunit)
+        if nu:
+            # step 3 over a list of 8: two picks are distinct and have different parity (one single-column shape each)
+            k0 = draw(_kunit)
+            at = len(props) - 1 if props and props[-1]['name'] == 'atom_id' else len(props)
+            for i in range(nu):
+                name, shape, dt, q = UNIT_EXTRAS[(k0 + 3 * i) % len(UNIT_EXTRAS)]
+                props.insert(at + i, {'name': name, 'shape': list(shape), 'dtype': dt, 'q': q,
+                                      'values': _fill(rng, n, shape, dt, q)})
+    return {'cell': cell, 'pbc': pbc, 'rel': rel, 'atype': atype, 'ntypes': ntypes, 'symbols': symbols,
             'props': props}
 
 
 @functools.lru_cache(maxsize=None)
-def systems_for(lammps, want, n_extras, atom_id):
-    return systems(lammps=lammps, want=want, n_extras=n_extras, atom_id=atom_id)
+def systems_for(lammps, want, n_extras, atom_id, unit_extras=False):
+    return systems(lammps=lammps, want=want, n_extras=n_extras, atom_id=atom_id, unit_extras=unit_extras)
 
 
 def snapshot(sysd):
